@@ -190,7 +190,7 @@ func genBundle(r *R, opts FlatOpts, plus bool, thorough bool, force map[string]b
 		flag("plusMissingFile", 20)
 		flag("plusDeepPtr", 35)
 		flag("plusPtrInPtr", 25)
-		flag("plusPtrCycle", 15)
+		flag("plusPtrCycle", 30)
 		flag("plusBackRef", 30)
 		flag("plusCollideRefs", 35)
 		flag("plusContainerRec", 35)
@@ -1041,6 +1041,33 @@ func (g *bundleGen) plantCaseSiblings() {
 		g.addRootDef("caseProps", obj{"type": "object", "properties": obj{
 			"Id": obj{"type": "object", "properties": obj{"a": g.primitive()}},
 			"id": obj{"type": "object", "properties": obj{"b": g.primitive()}}}})
+	}
+}
+
+// plantNestedPointers: an anonymous pointer whose target (a simple array or map, direct sub-schema of a root
+// definition) itself holds an anonymous pointer to a direct sub-schema of another root definition (acyclic chain).
+// C09 lists "pointers nested in pointer targets" under the wider class W+, and the unchanged tree indeed rejects
+// them (error), so this construct is planted in W+ only (fail-safety), never in W.
+func (g *bundleGen) plantNestedPointers() {
+	r := g.r
+	g.addRootDef("nestLabel", obj{"type": "object", "properties": obj{"name": obj{"type": "string", "description": "label name"}, "code": obj{"type": "integer"}}})
+	inner := obj{"$ref": "#/definitions/nestLabel/properties/name"}
+	var tags obj
+	if r.P(50) {
+		tags = obj{"type": "array", "items": inner}
+	} else {
+		tags = obj{"type": "object", "additionalProperties": inner}
+	}
+	g.addRootDef("nestOrder", obj{"type": "object", "properties": obj{"tags": tags, "qty": obj{"type": "integer"}}})
+	outer := obj{"$ref": "#/definitions/nestOrder/properties/tags"}
+	switch r.Intn(3) {
+	case 0:
+		g.addRootOp("/nested", outer)
+	case 1:
+		g.addRootDef("nestUser", obj{"type": "object", "properties": obj{"t": outer}})
+	case 2:
+		g.addRootOp("/nested", outer)
+		g.addRootDef("nestUser", obj{"type": "object", "properties": obj{"t": deepCopy(outer)}})
 	}
 }
 
